@@ -293,3 +293,13 @@ def run(ctx, rep):
     fns = [f for f in sorted(ctx.facts.fns) if CAT.match(f) and not NOT_REQUEST.search(f) and '::tests' not in f and '::{' not in f and ctx.has(f)]
     rep.ob('R06.i', '<catalogue>', 'functions enumerated', len(fns) >= 100, None, '%d catalogue functions scanned' % len(fns))
     check_panics(ctx, rep, 'R06.i', fns, CAT_ALLOW, ignore_kinds=('assert_overflow:Add', 'assert_overflow:Mul', 'assert_overflow:Shl', 'assert_overflow:Sub'))
+
+    # ------------------------------------------------------------ R06.j a fresh entity carries the id and name it was created with, and numbers its children from 1
+    rep.rule('R06.j', 'constructors: an entity stores the ids and the name it was given in the fields of their own kind, starts with empty child maps and numbers its children from 1', floor=19, analysis='A9')
+    from props import storage_forms as sf_
+    sf_.check_constructors(ctx, rep, 'R06.j', {
+        'Stream': ('stream_id', 'name', 'current_topic_id', 'topics', 'topics_ids'),
+        'Topic': ('stream_id', 'topic_id', 'name', 'partitions', 'consumer_groups', 'consumer_groups_ids', 'current_consumer_group_id', 'current_partition_id'),
+        'Partition': ('stream_id', 'topic_id', 'partition_id'),
+        'Segment': ('stream_id', 'topic_id', 'partition_id')})
+
